@@ -1,51 +1,72 @@
-"""Run the real docx2python (whatever PYTHONPATH points at) and return canonical JSON-able observations."""
-import io, warnings, binascii
+"""Run the real docx2python (from the repository the harness points at) and return canonical,
+JSON-able observations of every public attribute."""
+import io, warnings
 from encode import token
 from lxml import etree
+
+
 def _ord_map(root):
-    return {e:i for i,e in enumerate(x for x in root.iter() if isinstance(x.tag,str) and f"{x.prefix}:{etree.QName(x.tag).localname}"=="w:p")}
+    return {e: i for i, e in enumerate(x for x in root.iter() if isinstance(x.tag, str) and f"{x.prefix}:{etree.QName(x.tag).localname}" == "w:p")}
+
+
+def guard(f):
+    try: return {"ok": f()}
+    except Exception as e: return {"err": type(e).__name__}
+
+
+def par_json_factory(rd):
+    from docx2python.depth_collector import Par
+    ords = {}
+    try:
+        for f in rd.files_of_type():
+            try: ords.update({e: (f.path, i) for e, i in _ord_map(f.root_element).items()})
+            except Exception: pass
+    except Exception: pass
+
+    def pj(p):
+        if not isinstance(p, Par): return {"?": type(p).__name__}
+        cp = (p.elem is not None and p.elem not in ords) or (p.elem is None and p.lineage[1] == "")
+        return {"runs": p.run_strings, "lin": list(p.lineage), "style": p.style, "lp": [p.list_position[0], list(p.list_position[1])],
+                "elem": None if (cp or p.elem is None) else list(ords[p.elem]), "copy": cp,
+                "hs": list(p.html_style), "rs": [[list(r.html_style), r.text] for r in p.runs]}
+    return pj
+
+
+def nest(x, f):
+    if isinstance(x, list): return [nest(y, f) for y in x]
+    return f(x)
+
+
+def strleaf(s): return s if isinstance(s, str) else {"?": type(s).__name__}
+
+
 def observe(data: bytes, html: bool, dup: bool, want=None):
     from docx2python import docx2python
-    from docx2python.depth_collector import Par
-    out={}
-    def guard(f):
-        try: return {"ok": f()}
-        except Exception as e: return {"err": type(e).__name__}
+    out = {}
+    W = set(want or ["pars", "runs", "plain", "text", "comments", "images", "core", "files"])
     with warnings.catch_warnings():
         warnings.simplefilter('ignore')
-        d=docx2python(io.BytesIO(data), html=html, duplicate_merged_cells=dup)
-        rd=d.docx_reader
-        def pj_factory():
-            ords={}
-            try:
-                for f in rd.files_of_type():
-                    try: ords.update({e:(f.path,i) for e,i in _ord_map(f.root_element).items()})
-                    except Exception: pass
-            except Exception: pass
-            def pj(p):
-                if not isinstance(p, Par): return {"?": type(p).__name__}
-                cp = (p.elem is not None and p.elem not in ords) or (p.elem is None and p.lineage[1]=="")
-                return {"runs":p.run_strings,"lin":list(p.lineage),"style":p.style,"lp":[p.list_position[0],list(p.list_position[1])],
-                        "elem": None if (cp or p.elem is None) else list(ords[p.elem]), "copy":cp,
-                        "hs":list(p.html_style), "rs":[[list(r.html_style), r.text] for r in p.runs]}
-            return pj
-        def nest(x, f):
-            if isinstance(x, list): return [nest(y,f) for y in x]
-            return f(x)
-        pj=None
-        for part in ["header","footer","body","footnotes","endnotes","document"]:
-            def pars():
-                nonlocal pj
-                v=getattr(d, part+"_pars")
-                if pj is None: pj=pj_factory()
-                return nest(v, pj)
-            out[part+"_pars"]=guard(pars)
-            out[part+"_runs"]=guard(lambda: nest(getattr(d, part+"_runs"), lambda s: s if isinstance(s,str) else {"?":type(s).__name__}))
-            out[part]=guard(lambda: nest(getattr(d, part), lambda s: s if isinstance(s,str) else {"?":type(s).__name__}))
-        out["text"]=guard(lambda: d.text)
-        out["comments"]=guard(lambda: [list(c) for c in d.comments])
-        out["images"]=guard(lambda: [[k, token(v)] for k,v in d.images.items()])
-        out["core"]=guard(lambda: [[k,v] for k,v in d.core_properties.items()])
-        out["files"]=guard(lambda: [[f.path,f.Type,f.Id,f.Target] for f in rd.files])
-        d.close()
+        try:
+            d = docx2python(io.BytesIO(data), html=html, duplicate_merged_cells=dup)
+        except Exception as e:
+            return {"ctor": {"err": type(e).__name__}}
+        rd = d.docx_reader
+        pj = None
+        for part in ["header", "footer", "body", "footnotes", "endnotes", "document"]:
+            if "pars" in W:
+                def pars():
+                    nonlocal pj
+                    v = getattr(d, part + "_pars")
+                    if pj is None: pj = par_json_factory(rd)
+                    return nest(v, pj)
+                out[part + "_pars"] = guard(pars)
+            if "runs" in W: out[part + "_runs"] = guard(lambda: nest(getattr(d, part + "_runs"), strleaf))
+            if "plain" in W: out[part] = guard(lambda: nest(getattr(d, part), strleaf))
+        if "text" in W: out["text"] = guard(lambda: d.text)
+        if "comments" in W: out["comments"] = guard(lambda: [list(c) for c in d.comments])
+        if "images" in W: out["images"] = guard(lambda: [[k, token(v)] for k, v in d.images.items()])
+        if "core" in W: out["core"] = guard(lambda: [[k, v] for k, v in d.core_properties.items()])
+        if "files" in W: out["files"] = guard(lambda: [[f.path, f.Type, f.Id, f.Target] for f in rd.files])
+        try: d.close()
+        except Exception: pass
     return out
